@@ -200,7 +200,7 @@ CHECKS.update({
                  'frozen model twice; unused-variable/argument warnings are tested by renaming, unused-label/pointless-statement warnings '
                  'by deletion and re-execution; unknown-label and redefinition warning sets must equal RefLint; a runtime "Unknown jump '
                  'label" must have been predicted.'),
-        'note': 'One-level functions; models with duplicated function names are checked for purity and facts only; budget-limited runs are compared as prefixes.',
+        'note': 'Models with duplicated function names are checked for purity and facts only; budget-limited runs are compared as prefixes; finding F23 (lint does not analyse function statements nested inside a function body: a dangling jump there is not predicted) is classified by mechanism and has a directed witness in the quick tier.',
         'design_ref': '5/C18',
     },
     'C19': {
